@@ -26,6 +26,11 @@ pub const CORPUS_PICKS: &[&str] = &[
     "Asia/Kathmandu",
     "UTC",
     "EST5EDT",
+    "America/Chicago",
+    "America/Denver",
+    "America/Los_Angeles",
+    "Australia/Sydney",
+    "Australia/Adelaide",
 ];
 
 const ALNUM: &[u8] = b"ABCDEFGHIJKLMNOPQRSTUVWXYZabcdefghijklmnopqrstuvwxyz0123456789+-";
@@ -313,8 +318,28 @@ pub fn gen_zone(r: &mut Rng, o: ZoneOpts) -> ZoneSpec {
     }
     let mut z = ZoneSpec { version, types, trans, leaps, rule, rule_style: style, desig_mode: r.below(2) as u8, indicators: r.below(4) as u8, decoy: if r.chance(1, 2) { 0 } else { 1 + r.next() % 1_000_000 } };
 
+    // sometimes move the last transition right next to an instant at which the rule changes
+    // (where a mistake in evaluating the consistency requirement shows), leap seconds included
+    if let (Some(rule), Some(&(lt, _))) = (z.rule.clone(), z.trans.last()) {
+        if r.chance(1, 3) && lt.unsigned_abs() < 40_000_000_000_000_000 {
+            let prev = if z.trans.len() >= 2 { z.trans[z.trans.len() - 2].0 } else { i64::MIN };
+            let evs = crate::refmodel::rule_events_near(&rule, lt.max(prev.saturating_add(86400 * 400)).max(-2_000_000_000));
+            if !evs.is_empty() {
+                let e = evs[r.usize(evs.len())];
+                let maxc = z.leaps.iter().map(|(_, c)| c.unsigned_abs() as i64).max().unwrap_or(0);
+                let d = [0i64, 1, -1, 2, -2, maxc, -maxc, maxc + 1, -(maxc + 1), 3600, -3600][r.usize(11)];
+                let t = crate::refmodel::unix_to_leap(&z.leaps, e.saturating_add(d));
+                if t > prev {
+                    let n = z.trans.len();
+                    z.trans[n - 1].0 = t;
+                }
+            }
+        }
+    }
+
     // make the last transition agree with the rule (a well-formed file does)
-    if z.rule.is_some() && !z.trans.is_empty() && !z.valid() {
+    let well = |z: &ZoneSpec| crate::refmodel::independently_valid(z).unwrap_or_else(|| z.valid());
+    if z.rule.is_some() && !z.trans.is_empty() && !well(&z) {
         let cands: Vec<TypeSpec> = match z.rule.as_ref().unwrap() {
             RuleSpec::Fixed { off, desig } => vec![TypeSpec { off: *off, dst: false, desig: desig.clone(), isstd: false, isut: false }],
             RuleSpec::Alt { std_off, std_desig, dst_off, dst_desig, .. } => {
@@ -328,7 +353,7 @@ pub fn gen_zone(r: &mut Rng, o: ZoneOpts) -> ZoneSpec {
             let last = z.trans.len() - 1;
             for k in 0..cands.len() {
                 z.trans[last].1 = (base + k) as u8;
-                if z.valid() {
+                if well(&z) {
                     fixed = true;
                     break;
                 }
@@ -565,6 +590,14 @@ pub fn gen_c20(seed: u64) -> Scenario {
                 ops.push(Op::Resolve { tz: tz_value(&mut r, &sc), dirs, slot: r.usize(4) });
             }
         }
+        if r.chance(1, 10) {
+            let e = match r.below(3) {
+                0 => Op::SetEnv { key: "TZDIR".into(), val: "@CORPUS/right".into() },
+                1 => Op::SetEnv { key: "TZ".into(), val: ["Asia/Tokyo", ":UTC", "EST5EDT", "junk"][r.usize(4)].into() },
+                _ => Op::SetEnv { key: "TZDIR".into(), val: "/d3".into() },
+            };
+            ops.insert(r.usize(ops.len() + 1), e);
+        }
         total_ops += ops.len();
         sc.actors.push(Actor { kind: "client".into(), ops });
     }
@@ -613,6 +646,45 @@ pub fn gen_c20(seed: u64) -> Scenario {
 
 // ------------------------------------------------------------------ C15
 
+/// The same zone shifted by `d` seconds: identical transition instants, rule days and rule times,
+/// different offsets (like two neighbouring time zones of one country).
+pub fn sibling(z: &ZoneSpec, d: i32) -> Option<ZoneSpec> {
+    let mut s = z.clone();
+    for t in s.types.iter_mut() {
+        t.off = t.off.checked_add(d)?;
+        if !t.desig.is_empty() {
+            let n = t.desig.len();
+            t.desig[n - 1] = if t.desig[n - 1] == b'Z' { b'Y' } else { b'Z' };
+        }
+    }
+    if let Some(r) = s.rule.as_mut() {
+        match r {
+            RuleSpec::Fixed { off, desig } => {
+                *off = off.checked_add(d)?;
+                let n = desig.len();
+                if n > 0 {
+                    desig[n - 1] = if desig[n - 1] == b'Z' { b'Y' } else { b'Z' };
+                }
+            }
+            RuleSpec::Alt { std_off, dst_off, std_desig, dst_desig, .. } => {
+                *std_off = std_off.checked_add(d)?;
+                *dst_off = dst_off.checked_add(d)?;
+                for dd in [std_desig, dst_desig] {
+                    let n = dd.len();
+                    if n > 0 {
+                        dd[n - 1] = if dd[n - 1] == b'Z' { b'Y' } else { b'Z' };
+                    }
+                }
+            }
+        }
+    }
+    if s.valid() && s.representable() {
+        Some(s)
+    } else {
+        None
+    }
+}
+
 pub fn gen_c15(seed: u64) -> Scenario {
     let mut r = Rng::new(seed);
     let mut sc = Scenario::empty("C15", "c15", seed);
@@ -624,7 +696,14 @@ pub fn gen_c15(seed: u64) -> Scenario {
             sc.contents.push(Content::Corpus(r.pick(CORPUS_PICKS).to_string()));
             specs.push(None);
         } else {
-            let z = { let zo = ZoneOpts { tag: Some(i as u32 * 7 + 1), dense: r.chance(1, 2), allow_invalid: false, allow_huge: false, i32_times: r.chance(1, 2) }; gen_zone(&mut r, zo) };
+            let prev_sibling = if i > 0 && r.chance(1, 2) { specs[i - 1].clone().and_then(|p: ZoneSpec| sibling(&p, [3600, -3600, 7200, 1800][r.usize(4)])) } else { None };
+            let z = match prev_sibling {
+                Some(z) => z,
+                None => {
+                    let zo = ZoneOpts { tag: Some(i as u32 * 7 + 1), dense: r.chance(1, 2), allow_invalid: false, allow_huge: false, i32_times: r.chance(1, 2) };
+                    gen_zone(&mut r, zo)
+                }
+            };
             specs.push(Some(z.clone()));
             sc.contents.push(Content::Gen(z));
         }
@@ -667,6 +746,11 @@ pub fn gen_c15(seed: u64) -> Scenario {
     }
     fields.push(Fields { y: 2024, mo: 3, d: 31, h: 2, mi: 30, s: 0, ns: 0 });
     fields.push(Fields { y: 1970, mo: 1, d: 1, h: 0, mi: 0, s: 0, ns: 0 });
+    // after the tables of the real zones end, their footer rule answers (US / EU / AU change days)
+    let fy = 2038 + r.below(40) as i32;
+    fields.push(Fields { y: fy, mo: 3, d: 8 + r.below(7) as u8, h: 2, mi: 30, s: 0, ns: 0 });
+    fields.push(Fields { y: fy, mo: 11, d: 1 + r.below(7) as u8, h: 1, mi: 30, s: 0, ns: 0 });
+    fields.push(Fields { y: fy, mo: 10, d: 1 + r.below(7) as u8, h: 2, mi: 30, s: 0, ns: 0 });
 
     let nclients = 2 + r.usize(3);
     let mut total = 0;
@@ -719,7 +803,8 @@ pub fn gen_c15(seed: u64) -> Scenario {
                         Op::Current { z: ZRef::P(r.usize(3)) }
                     }
                 }
-                _ => match r.below(4) {
+                _ => match r.below(5) {
+                    4 => Op::Construct { kind: if r.chance(1, 4) { "ambient_local".into() } else { "ambient_tz".into() }, args: vec![r.below(1000) as i64] },
                     0 => Op::Share { slot: r.usize(3), pool: r.usize(2) },
                     1 => Op::CloneZ { z: ZRef::S(r.usize(2)), slot: r.usize(4) },
                     2 => {
@@ -756,6 +841,13 @@ pub fn gen_c15(seed: u64) -> Scenario {
             ops.push(match r.below(8) {
                 0 | 1 => Op::SetEnv { key: "TZ".into(), val: ["Asia/Tokyo", "UTC0", ":Europe/Paris", "", "junk", "EST5EDT"][r.usize(6)].into() },
                 2 => Op::SetEnv { key: ["TZDIR", "LANG", "LC_ALL"][r.usize(3)].into(), val: ["/d3", "C", "fr_FR.UTF-8", "/share/zoneinfo"][r.usize(4)].into() },
+                3 if r.chance(1, 2) => {
+                    if r.chance(1, 2) {
+                        Op::SetEnv { key: "TZDIR".into(), val: "@CORPUS/right".into() }
+                    } else {
+                        Op::SetEnv { key: "CWD".into(), val: ["@CORPUS/..", "@CORPUS", "/"][r.usize(3)].into() }
+                    }
+                }
                 3 => Op::UnsetEnv { key: ["TZ", "TZDIR"][r.usize(2)].into() },
                 4 | 5 => Op::ClockAdvance { ns: r.range(1, 4_000_000_000_000) as i128 * if r.chance(1, 2) { 1_000_000 } else { 1 } },
                 6 => Op::ClockJump { to: sc.clock - r.range(1, 1_000_000_000) as i128 * 1_000_000_000 },
@@ -959,7 +1051,7 @@ fn gen_content_fault(r: &mut Rng, ncont: usize) -> Fault {
 }
 
 fn tz_string_bytes(r: &mut Rng) -> Vec<u8> {
-    let parts: &[&str] = &["EST", "5", "EDT", ",", "M3.2.0", "M11.1.0", "/2", "/-1", "/25", "/167:59:59", "J1", "J365", "J366", "0", "365", "366", "<+03>", "<", ">", "-", "+", ":", "24:59:59", "25", "M13.1.0", "M1.6.0", "M1.1.7", "M3.0.0", "M3.2.1", "M0.1.0", ",M3.0.0,M3.2.1", "AAA0BBB", "99999999999999999999", " ", "\0", "é", "UTC0", ",M3.5.0,M10.5.0/3", "4:30"];
+    let parts: &[&str] = &["EST", "5", "EDT", ",", "M3.2.0", "M11.1.0", "/2", "/-1", "/25", "/167:59:59", "J1", "J365", "J366", "0", "365", "366", "<+03>", "<", ">", "-", "+", ":", "24:59:59", "25", "M13.1.0", "M1.6.0", "M1.1.7", "M3.0.0", "M3.2.1", "M0.1.0", ",M3.0.0,M3.2.1", "AAA0BBB", "596524", "/596524", "2147483647", "4294967296", "65536", "/-596524", "J596524", "M3.596524.0", "99999999999999999999", " ", "\0", "é", "UTC0", ",M3.5.0,M10.5.0/3", "4:30"];
     let mut s = Vec::new();
     for _ in 0..1 + r.usize(8) {
         s.extend_from_slice(r.pick(parts).as_bytes());
